@@ -21,26 +21,41 @@ def insertSorted (x : String) : List String → List String
 
 def sortStrings (l : List String) : List String := l.foldr insertSorted []
 
+def insertNat (x : Nat) : List Nat → List Nat
+  | [] => [x]
+  | y :: ys => if x ≤ y then x :: y :: ys else y :: insertNat x ys
+
+def sortNats (l : List Nat) : List Nat := l.foldr insertNat []
+
 def stateStr (l : List String) : String := ",".intercalate (sortStrings l)
 
 def handleWatch (toks : List String) : String :=
   match toks with
-  | kind :: rest =>
-    match run (counted pWEv) rest with
-    | none => "bad-op"
-    | some evs =>
+  | kind :: npreTok :: rest =>
+    match run (counted pWEv) rest, npreTok.toNat? with
+    | some evs, some npre =>
       -- content id = index of the event; parse is given by the line
       let parse : W.Parse := fun c =>
         match evs[c]? with
         | some e => if e.valid then some e.names else none
         | none => none
-      let events : List W.Ev := evs.zipIdx.map fun (e, i) => .change s!"f{e.file}" i
+      let all : List (W.Ev × Nat) := evs.zipIdx.map fun (e, i) => (.change s!"f{e.file}" i, e.file)
+      -- versions written before the watcher started: only the last one per file is ever
+      -- seen, and the initial load walks the directory in file-name order
+      let pre := all.take npre
+      let files := sortNats ((pre.map (·.2)).eraseDups)
+      let preEvents : List W.Ev := files.filterMap fun f => ((pre.filter (·.2 == f)).getLast?).map (·.1)
+      let events : List W.Ev := preEvents ++ (all.drop npre).map (·.1)
+      -- the initial load is one step as far as an observer is concerned only for the
+      -- legacy watcher's per-file map; both watchers publish after each file, so every
+      -- prefix is a possible observation
       let prefixes := (List.range (events.length + 1)).map fun k => events.take k
       let states : List String :=
         if kind == "o" then prefixes.map fun es => stateStr (W.oall (W.orun parse es))
         else prefixes.map fun es => stateStr (W.lall (W.lrun parse es))
       let final := states.getLast?.getD ""
       s!"final={final}\tstates={"|".intercalate states}"
+    | _, _ => "bad-op"
   | _ => "bad-op"
 
 end Driver
